@@ -50,7 +50,7 @@ MIN_COUNTERS = {"parse_cases": 1000, "family_cases": 300, "families_cut_off_by_C
 CASE_WATCHDOG_S = 300.0
 PARSE_A, PARSE_B = 50_000, 1_000
 RENDER_BUDGET = 3_000_000
-CPU_S = 10.0
+CPU_S = 4.0
 
 CLOCK = StepClock()
 
@@ -386,6 +386,18 @@ def parse_cases(ctx: core.Ctx, rng):
                     continue
                 yield {"kind": "parse", "source": (frag * n)[:8000], "mode": mode}
                 yield {"kind": "parse", "source": ("x " + frag) * min(n, 400) + "{% endif %}", "mode": mode}
+    # an opening delimiter followed by a long run of one filler (the shapes on which a lexer rule can backtrack): the step clock sees one
+    # regex call, so the CPU guard is what decides here
+    for opener in ("{%", "{{", "{%-", "{{-", "{% if", "{% liquid", "{#", "{% raw %}", "{% comment %}", "{% doc %}", "{{ a |", "{% assign x ="):
+        for filler in (" ", "\n", "\t ", "-", " -", "a ", "%", "}", "'", " #"):
+            for n in (300, 2000):
+                k += 1
+                if k % ctx.nshards != ctx.shard:
+                    continue
+                yield {"kind": "parse", "source": opener + filler * n, "mode": "strict" if k % 2 else "lax"}
+                if filler == " " and n == 2000:
+                    yield {"kind": "parse", "source": opener + filler * n + "b", "mode": "lax"}
+                    yield {"kind": "parse", "source": ("x" + opener + filler * 200) * 10, "mode": "strict"}
     # deep expression nesting (parentheses, bracketed paths, not-chains, filter arguments), far beyond anything a block nesting limit covers
     for n in (20, 100, 400, 1500):
         for mode in ("strict", "lax"):
